@@ -12,8 +12,9 @@ import CalVerif.Spec.MetadataEnc
       `xlsb R=<rels> <hex workbook.bin>`     → model of `xlsb/mod.rs read_workbook` (after fix C16-a (889c07c))
       `xlsbpinned R=<rels> <hex workbook.bin>`  → the pinned snapshot (payload of unknown records scanned as record ids)
       `encbundle <hs> <tabId> <hex rel units LE> <hex name units LE>` → hex of `MetaEnc.encodeBundleSh`
-      `xlsx R=<rels> <ev> <ev> …`            → model of `xlsx/mod.rs read_workbook` (after fix D22)
+      `xlsx R=<rels> <ev> <ev> …`            → model of `xlsx/mod.rs read_workbook` (after fixes D22 and 4dbff9e)
       `xlsxd22 R=<rels> <ev> …`              → the pinned snapshot's `workbookPr` test (ledger D22)
+      `xlsxd22fix R=<rels> <ev> …`           → the reader between 60648c6 and 4dbff9e (finding C16-b: a foreign workbookPr in extLst resets the flag)
       `ods <ev> <ev> …`                      → model of `ods.rs parse_content` (metadata part)
     rels  = `<hex id>=<hex target>,…` (empty: `R=`)
     ev    = `s:<name>:<k>=<hex v>,…|-` | `e:<name>` | `t:<hex>` | `o`   (`:` inside names written `.`; harness `xlsxw::ev_wire`)
@@ -140,6 +141,10 @@ def handle (line : String) : String :=
   | "xlsxd22" :: r :: evs =>
     match parseRels r, evs.mapM parseEv with
     | some rels, some evs => showRes (readWorkbookXlsxD22 rels evs) fun (wb, paths) => showWb hexStr wb (some paths)
+    | _, _ => "bad-args"
+  | "xlsxd22fix" :: r :: evs =>
+    match parseRels r, evs.mapM parseEv with
+    | some rels, some evs => showRes (readWorkbookXlsxD22Fix rels evs) fun (wb, paths) => showWb hexStr wb (some paths)
     | _, _ => "bad-args"
   | "ods" :: evs =>
     match evs.mapM parseEv with
